@@ -455,7 +455,7 @@ func (env *c10Env) where(addr uintptr) string {
 		start, end := o.a.addr(), o.a.end()
 		switch {
 		case addr >= end && addr < end+4096:
-			return fmt.Sprintf("%d bytes past the end of %s (first inaccessible byte is +0)", addr-end, o.name)
+			return fmt.Sprintf("at the inaccessible byte %d past the end of %s", addr-end+1, o.name)
 		case addr >= start && addr < end:
 			return fmt.Sprintf("inside %s at offset %d", o.name, addr-start)
 		case addr < start && addr+4096 >= o.a.g.Addr() && addr < o.a.g.Addr():
